@@ -154,6 +154,9 @@ StepClauses(pre, ev, o, out, f, g2) ==
   \cup If(~ok /\ changed /\ CanWrite(pre.s.m), "C07:changed_on_failure")
   \cup If(~ok /\ changed /\ ~CanWrite(pre.s.m), "C08:changed_outside_write_ctx")
   \cup If(mut /\ ~ok /\ CanWrite(pre.s.m) /\ ob.mem.has_entries /\ pre.me # <<>> /\ ob.mem.entries # pre.me, "C07:mem_changed_on_failure")
+  \* (a refused call may leave a stray write in the handle's buffer that reaches the file only
+  \* with the next flush: bytes that change at a later non-mutating step of the same context)
+  \cup If(~mut /\ changed /\ pre.dirty, "C07:changed_after_failure")
   \* --- bytes change only through a mutator in a write context
   \cup If(ok /\ changed /\ ~mut, "C08:reader_changed_bytes")
   \cup If(ok /\ changed /\ mut /\ ~CanWrite(pre.s.m), "C08:changed_outside_write_ctx")
@@ -188,7 +191,8 @@ InitFor(t) ==
   LET d == Traces[t].init.disk
       f == AbsFile(d)
       tys == {Traces[t].types[i] : i \in 1..Len(Traces[t].types)} IN
-  [s |-> [f |-> f, m |-> Closed("rb"), g |-> GhostInit(f, tys)], sha |-> d.sha, flen |-> d.flen, me |-> <<>>]
+  [s |-> [f |-> f, m |-> Closed("rb"), g |-> GhostInit(f, tys)], sha |-> d.sha, flen |-> d.flen, me |-> <<>>,
+   dirty |-> FALSE]
 
 Init == /\ tid \in 1..Len(Traces)
         /\ l = 1
@@ -208,7 +212,11 @@ Step ==
          ms  == IF fit # {} THEN fit ELSE out.ms
      IN /\ \E m2 \in ms :
              s' = [s |-> [f |-> f, m |-> m2, g |-> g2], sha |-> ev.obs.disk.sha, flen |-> ev.obs.disk.flen,
-                   me |-> IF ev.obs.mem.inside /\ ev.obs.mem.has_entries THEN ev.obs.mem.entries ELSE <<>>]
+                   me |-> IF ev.obs.mem.inside /\ ev.obs.mem.has_entries THEN ev.obs.mem.entries ELSE <<>>,
+                   \* a refused mutator in a write context makes the context "dirty" until the next
+                   \* successful mutator or the next context
+                   dirty |-> IF o.op \in Mutators THEN (~ev.res.ok /\ CanWrite(s.s.m))
+                             ELSE IF o.op = "enter" THEN FALSE ELSE s.dirty]
         /\ cl' = cl \cup {<<l, c>> : c \in cs}
         /\ dead' = ~Sound(f, s.s.g, ev.obs.disk)
         /\ l' = l + 1
